@@ -234,6 +234,7 @@ type dcall struct {
 	Params  M          `json:"params,omitempty"`
 	Keys    [][]string `json:"keys"`
 	Resp    *dresp     `json:"resp,omitempty"`
+	Nested  *dcall     `json:"nested,omitempty"`
 }
 
 type dresp struct {
@@ -431,6 +432,13 @@ func Prepare(r *core.Run, extra, race bool) (*Prepared, error) {
 			}
 			ps = append(ps, M{"name": p.name, "in": p.C.Loc, "required": p.group == "req", "style": p.C.Style, "explode": p.C.Explode, "schema": p.schema()})
 		}
+		if id == "pathreq" {
+			// declared in the opposite order of their places in the path template: the router cuts
+			// the arguments in path order, the decoder looks them up per declared parameter
+			for i, j := 0, len(ps)-1; i < j; i, j = i+1, j-1 {
+				ps[i], ps[j] = ps[j], ps[i]
+			}
+		}
 		paths[path] = M{"get": M{"operationId": id, "parameters": ps, "responses": M{"200": M{"description": "ok"}}}}
 	}
 	jsonOf := func(ref string) M {
@@ -571,6 +579,14 @@ func Prepare(r *core.Run, extra, race bool) (*Prepared, error) {
 			calls = append(calls, dcall{Method: method, HasReq: true, Req: toGo(b.B, bodyFields), Keys: [][]string{}})
 			metas = append(metas, meta{kind: "body", vary: -1, sent: b.B, descr: method})
 		}
+	}
+	// the same bodies while a second call goes through the same client between "request built"
+	// and "request sent" (made by the transport): what the first call delivers must not change
+	innerBody := M{"t": "obj", "m": []any{M{"t": "int", "n": 9}, strOf("zz"), strOf("q"), M{"t": "arr", "v": []any{M{"t": "int", "n": 8}, M{"t": "int", "n": 7}}}}}
+	for _, b := range bodies {
+		inner := dcall{Method: "Body", HasReq: true, Req: toGo(innerBody, bodyFields), Keys: [][]string{}}
+		calls = append(calls, dcall{Method: "Body", HasReq: true, Req: toGo(b.B, bodyFields), Keys: [][]string{}, Nested: &inner})
+		metas = append(metas, meta{kind: "body", vary: -1, sent: b.B, descr: "Body with a second call made by the transport before sending"})
 	}
 	for _, method := range []string{"Form", "Multi", "Formopt", "Multiopt"} {
 		for _, f := range forms {
